@@ -383,7 +383,7 @@ pub fn c18(ctx: &CheckCtx) -> i32 {
          (only no-panic). Non-trivial: boundary / overflow-by-one / tuple-length class; distinct by (target, classes, value).",
     );
     report.assume("enum values are not decoded (the deserializer has a documented todo!() for them)");
-    let cases = ctx.cases(3_000_000, 30_000_000);
+    let cases = ctx.cases(12_000_000, 100_000_000);
     let res = search(ctx, "c18", cases, 6, 80, c18_case);
     report.absorb(res, &|b| {
         let mut c = Choices::new(b);
